@@ -1,6 +1,6 @@
 (* Exec/Args.v — reading the flattened argument list of a case back into model values. *)
 From Coq Require Import ZArith QArith Qcanon List Bool String.
-From CG Require Import Scalar Model.Vector Exec.ExecQ.
+From CG Require Import Scalar Model.Vector Model.Point Model.Matrix Exec.ExecQ.
 Import ListNotations.
 Set Implicit Arguments.
 
@@ -15,6 +15,19 @@ Section Rd.
     fun l => match l with a :: b :: c :: r => Some (mkV3 a b c, r) | _ => None end.
   Definition rd_v4 : rd (V4 S) :=
     fun l => match l with a :: b :: c :: d :: r => Some (mkV4 a b c d, r) | _ => None end.
+  Definition rd_p1 : rd (P1 S) := fun l => match l with a :: r => Some (mkP1 a, r) | _ => None end.
+  Definition rd_p2 : rd (P2 S) :=
+    fun l => match l with a :: b :: r => Some (mkP2 a b, r) | _ => None end.
+  Definition rd_p3 : rd (P3 S) :=
+    fun l => match l with a :: b :: c :: r => Some (mkP3 a b c, r) | _ => None end.
+  Definition rd_m2 : rd (M2 S) :=
+    fun l => match l with a :: b :: c :: d :: r => Some (m2_new a b c d, r) | _ => None end.
+  Definition rd_m3 : rd (M3 S) :=
+    fun l => match l with a0 :: a1 :: a2 :: b0 :: b1 :: b2 :: c0 :: c1 :: c2 :: r =>
+                            Some (m3_new a0 a1 a2 b0 b1 b2 c0 c1 c2, r) | _ => None end.
+  Definition rd_m4 : rd (M4 S) :=
+    fun l => match l with a0 :: a1 :: a2 :: a3 :: b0 :: b1 :: b2 :: b3 :: c0 :: c1 :: c2 :: c3 :: d0 :: d1 :: d2 :: d3 :: r =>
+                            Some (m4_new a0 a1 a2 a3 b0 b1 b2 b3 c0 c1 c2 c3 d0 d1 d2 d3, r) | _ => None end.
   Definition rd_map (A B : Type) (f : A -> B) (ra : rd A) : rd B :=
     fun l => match ra l with Some (a, r) => Some (f a, r) | None => None end.
   Definition rd_pair (A B : Type) (ra : rd A) (rb : rd B) : rd (A * B) :=
@@ -56,10 +69,22 @@ Section Rd.
         | None => VBad end
     | None => VBad end.
   Definition run0 (f : val) (l : list S) : val := match l with [] => f | _ => VBad end.
+  Definition run5 (A B C D E : Type) (ra : rd A) (rb : rd B) (rc : rd C) (rd' : rd D) (re : rd E)
+             (f : A -> B -> C -> D -> E -> val) (l : list S) : val :=
+    match ra l with
+    | Some (a, r) => match rb r with
+        | Some (b, r') => match rc r' with
+            | Some (c, r'') => match rd' r'' with
+                | Some (d, r3) => match re r3 with Some (e, []) => f a b c d e | _ => VBad end
+                | None => VBad end
+            | None => VBad end
+        | None => VBad end
+    | None => VBad end.
 End Rd.
 
 (* index arguments travel as integral rationals *)
-Definition qc_nat (x : Qc) : nat := Z.to_nat (Qnum (this x)).
+(* clamped: an index like usize::MAX must not be expanded to a unary numeral *)
+Definition qc_nat (x : Qc) : nat := Z.to_nat (Z.min (Qnum (this x)) 1000).
 Definition qc_Z (x : Qc) : Z := Qnum (this x).
 
 (* flattening of results *)
